@@ -90,7 +90,11 @@ class SnepClient(object):
         """
         self.close()
         self.socket = nfc.llcp.Socket(self.llc, nfc.llcp.DATA_LINK_CONNECTION)
-        self.socket.connect(service_name)
+        try:
+            self.socket.connect(service_name)
+        except nfc.llcp.Error:
+            self.close()
+            raise
         self.send_miu = self.socket.getsockopt(nfc.llcp.SO_SNDMIU)
 
     def close(self):
